@@ -566,7 +566,22 @@ impl Swift {
         match e {
             RustEnum::Unit(shared) => {
                 for v in &shared.variants {
-                    let variant_name = v.shared().id.original.to_camel_case();
+                    let variant_name = {
+                        let mut variant_name = v.shared().id.original.to_camel_case();
+
+                        if variant_name
+                            .chars()
+                            .next()
+                            .map(|c| c.is_ascii_digit())
+                            .unwrap_or(false)
+                        {
+                            // As for the variants of an algebraic enum below: a name that starts
+                            // with a digit gets an underscore in front to make it valid
+                            variant_name = format!("_{}", variant_name);
+                        }
+
+                        variant_name
+                    };
 
                     self.write_comments(w, 1, &v.shared().comments)?;
                     if v.shared().id.renamed == variant_name {
